@@ -161,26 +161,26 @@ Proof. exact guarded_eq_nonnum. Qed.
 (* ---------------------------------------------------------------- selection *)
 (* select_never_unguarded_on_uncertain: TRUE at full strength since fix da40ed1 *)
 Theorem select_never_unguarded_on_uncertain : forall op l r,
-  is_certain l && is_certain r = false -> is_unchecked_opcode (select_opcode op l r) = false.
+  is_certain l && is_certain r = false -> is_specialised_opcode (select_opcode op l r) = false.
 Proof. exact select_guarded_all. Qed.
 
 (* the unchecked shift / bitwise opcodes are chosen exactly for two integer types without guard *)
 Theorem select_bitwise_unchecked_exactly : forall op l r,
   is_bitwise op = true ->
-  is_unchecked_opcode (select_opcode op l r) =
+  is_specialised_opcode (select_opcode op l r) =
   is_integer (unwrap_uncertain l) && is_integer (unwrap_uncertain r)
   && negb (needs_guard l || needs_guard r).
 Proof. exact select_bitwise_exact. Qed.
 
 (* about the OLD definition only (before da40ed1): guarded int selection returned ShlII.. *)
 Theorem old_select_guarded_int_was_unchecked :
-  is_unchecked_opcode (select_guarded_int_opcode_old OpShl) = true /\
-  is_unchecked_opcode (select_guarded_int_opcode OpShl) = false /\
+  is_specialised_opcode (select_guarded_int_opcode_old OpShl) = true /\
+  is_specialised_opcode (select_guarded_int_opcode OpShl) = false /\
   select_opcode OpShl (RUncertain RI64) (RUncertain RI64) = O_Shl.
 Proof. exact old_guarded_int_selection_was_unchecked. Qed.
 
 Theorem select_typed_only_for_static_int_or_float : forall op l r,
-  is_unchecked_opcode (select_opcode op l r) = true ->
+  is_specialised_opcode (select_opcode op l r) = true ->
   (is_integer (unwrap_uncertain l) && is_integer (unwrap_uncertain r) = true) \/
   (is_float_ty (unwrap_uncertain l) && is_float_ty (unwrap_uncertain r) = true /\ is_bitwise op = false).
 Proof. exact select_typed_needs_static_types. Qed.
